@@ -54,7 +54,8 @@ def stun_change_port_counts(payload):
 # ---------------------------------------------------------------------------------------------
 # C03
 # ---------------------------------------------------------------------------------------------
-def mirror(f, r, cfg):
+def mirror(f, r, cfg, prior=b""):
+    """prior: bytes already delivered on the same TCP flow (a STUN request may be split over several segments)."""
     errs = []
     if len(r) < 14 or len(f) < 14:
         return ["short reply shorter than an Ethernet header"]
@@ -86,6 +87,8 @@ def mirror(f, r, cfg):
             errs.append("dport %d is not the request's source port %d" % (a.dp, q.sp))
         if a.sp != q.dp:
             ks = stun_change_port_counts(q.data)
+            if prior:
+                ks |= stun_change_port_counts(prior + q.data)
             ok = any(a.sp == (q.dp + k) & 0xFFFF for k in ks if k > 0)
             if not ok:
                 errs.append("sport %d is not the request's destination port %d" % (a.sp, q.dp))
@@ -316,7 +319,7 @@ def log_word(evs):
     return " ".join("%s-%s" % (e.proto, e.verb) for e in evs)
 
 
-def logcheck(f, res, cfg):
+def logcheck(f, res, cfg, prior=b""):
     if cfg.logger == "n":
         return []
     evs, errs = log_events(res, cfg)
@@ -398,6 +401,8 @@ def logcheck(f, res, cfg):
             ok = False
             if "dp" in q and e.verb == "send":
                 ks = stun_change_port_counts(q.get("data", b""))
+                if prior:
+                    ks |= stun_change_port_counts(prior + q.get("data", b""))
                 ok = any(d["port_dst"] == str((q.dp + k) & 0xFFFF) for k in ks if k > 0)
             if not ok:
                 errs.append("fields port_dst %s != frame's %s" % (d["port_dst"], q.get("dp")))
